@@ -140,7 +140,7 @@ reg("C05",
                           P.mon_shared_removal(rr) if "removals" in rr.prog.tags else P.mon_history(rr))],
     extra=lambda seed, tier, flavours: LG.leg_skeleton(
         P.gen_history_programs(G.Rng(seed + 54), N(tier, 4, 20), maxlen=8), flavours[0]),
-    nontrivial=lambda rr: has(rr, ("remove",), ("ok",)) and has(rr, ("write", "wcommit"), ("ok",)),
+    nontrivial=lambda rr: has(rr, ("remove", "remove_opts"), ("ok",)) and has(rr, ("write", "wcommit"), ("ok",)),
     rule="(system-call skeleton of writes and removals = the model's call trace: one record = one write(2) on an O_APPEND "
          "descriptor - what makes 'the most recent successful write' well defined under concurrent appenders) "
          "random histories of keyed writes (all entry points, mixed flavours) and removals over 2-5 keys and 3 values; "
@@ -162,7 +162,7 @@ reg("C09",
     monitors=[lambda rr: (P.mon_shared_removal(rr) if "removals" in rr.prog.tags else
                           P.mon_linked_removal(rr) if "linkrm" in rr.prog.tags else
                           P.mon_expect_reads(rr) if "expect_reads" in rr.prog.tags else P.mon_history(rr))],
-    nontrivial=lambda rr: has(rr, ("remove", "remove_hash", "remove_fully", "clear"), ("ok",)),
+    nontrivial=lambda rr: has(rr, ("remove", "remove_opts", "remove_hash", "remove_fully", "clear"), ("ok",)),
     rule="as C05 plus remove_hash, remove_fully and clear; plus shared-content removal programs (see C10); "
          "non-trivial = some removal succeeded")
 
